@@ -4,7 +4,7 @@ from lib.coqterm import cbool, cbytes, clist, copt, cZ, hx, unhx
 
 ID = "C07"
 QUICK_N = 3000
-THOROUGH_N = 80000
+THOROUGH_N = 50000
 SHARD = 250
 RULE = ("85% exchanges through a real HttpLayer (regular mode, HTTP/1.1, one POST): body_size_limit / stream_large_bodies "
         "from a dictionary of size strings (unset, empty, small ints, signs, underscores, spaces, k suffix, invalid), "
@@ -485,7 +485,7 @@ def _side(case, obs, req):
                 if not any(t[0] == "errpage" for t in msgs):
                     if any(t[0] == "send" and t[1] == 0 and unhx(t[2]).startswith(b"HTTP/1.1 100") for t in msgs):
                         v.append({"key": "no-error-response-after-100-continue",
-                                  "what": "oversized request after 100 Continue: client connection closed without an error response"})
+                                  "what": f"oversized {who} after 100 Continue: client connection closed without an error response"})
                     else:
                         v.append({"key": "no-client-error", "what": f"oversized {who}: client received no error response"})
                 if ["close", 0] not in msgs:
